@@ -396,6 +396,37 @@ func C06(tier string) {
 		}
 	}
 
+	// payloads that are (or look like) real ICC profiles, with a correct and with a
+	// wrong size field: the bytes are opaque to the loaders
+	for _, kind := range []string{"icc", "icc-size-short", "icc-size-long", "icc-size-128"} {
+		for _, sizes := range [][]int{{1000}, {700, 300}, {1000, 2001}, {132}, {200, 65519, 3}} {
+			tot := 0
+			for _, s := range sizes {
+				tot += s
+			}
+			p := testProfile(tot, kind)
+			segs := split(p, sizes)
+			jpegWith(fmt.Sprintf("jpeg %s payload %v", kind, sizes), segs, nil)
+			if len(segs) > 1 {
+				rev := make([]gen.JPEGSeg, len(segs))
+				for i := range segs {
+					rev[len(segs)-1-i] = segs[i]
+				}
+				jpegWith(fmt.Sprintf("jpeg %s payload %v reversed, after SOF", kind, sizes), []gen.JPEGSeg{jpegSegByName("APP0")}, rev)
+			}
+		}
+	}
+	// the largest profile a JPEG can carry: 255 full chunks
+	{
+		n := 255 * 65519
+		p := testProfile(n, "ramp")
+		sizes := make([]int, 255)
+		for i := range sizes {
+			sizes[i] = 65519
+		}
+		jpegWith("jpeg 255 full chunks (16,707,345 bytes)", split(p, sizes), nil)
+	}
+
 	// PNG
 	pngWith := func(name string, prof []byte, iname string, level int, pre, post []string) {
 		spec := gen.PNGSpec{W: 800, H: 600, BitDepth: 8, ColorType: 2, IDAT: []byte{0x78, 0x9c, 3, 0, 0, 0, 0, 1}}
@@ -458,6 +489,16 @@ func C06(tier string) {
 		}
 	}
 
+	for _, kind := range []string{"icc", "icc-size-short", "icc-size-long", "icc-size-128"} {
+		for _, n := range []int{132, 1000, 3001} {
+			pngWith(fmt.Sprintf("png iCCP %d bytes %s", n, kind), testProfile(n, kind), "real", 6, nil, []string{"gAMA"})
+		}
+	}
+	// beyond the largest JPEG profile (compressible content keeps the file small)
+	for _, n := range []int{255*65519 - 1, 255 * 65519, 255*65519 + 1, 20000003, 33554433} {
+		pngWith(fmt.Sprintf("png iCCP %d bytes ramp level 6", n), testProfile(n, "ramp"), "huge", 6, nil, nil)
+	}
+
 	// WebP
 	vp8, _ := gen.WebPVP8(33, 21, 0, 0, []byte{0, 0, 0, 0, 0, 0}, 0)
 	inner := vp8[12:]
@@ -469,6 +510,13 @@ func C06(tier string) {
 	for n := 317; n < 9<<20; n = n*137/100 + 3 {
 		wsizes = append(wsizes, n)
 	}
+	for _, kind := range []string{"icc", "icc-size-short", "icc-size-long"} {
+		for _, n := range []int{132, 1001, 3000} {
+			data, info := gen.WebPVP8X(0x20, 32, 20, testProfile(n, kind), inner)
+			add(Case{fmt.Sprintf("webp VP8X+ICCP %d bytes %s", n, kind), data, info})
+		}
+	}
+	wsizes = append(wsizes, 255*65519+1, 20000003)
 	for _, n := range wsizes {
 		data, info := gen.WebPVP8X(0x20, 32, 20, testProfile(n, "lcg"), inner)
 		add(Case{fmt.Sprintf("webp VP8X+ICCP %d bytes", n), data, info})
